@@ -66,9 +66,9 @@ def fn_body(f):
     return [s for s in f.body if not (isinstance(s, ast.Expr) and isinstance(s.value, ast.Constant))]
 
 
-def fold_parse_read(repo, cigar, seq, qual, mq=37, multi=None, gene=None, ref_start=START, phaseable=None):
+def fold_parse_read(repo, cigar, seq, qual, mq=37, multi=None, gene=None, ref_start=START, phaseable=None, eqs=None, indel_sites=None):
     f = repo.func("sam::Sample._parse_read")
-    me = Obj(phases={}, gene=gene or GeneStub(), phaseable=dict(phaseable or {}), _indel_sites_eqs={}, _indel_sites={},
+    me = Obj(phases={}, gene=gene or GeneStub(), phaseable=dict(phaseable or {}), _indel_sites_eqs=dict(eqs or {}), _indel_sites=dict(indel_sites or {}),
              _multi_sites=dict(multi or {}))
     norm, muts = collections.defaultdict(list), collections.defaultdict(list)
     env = {"self": me, "fragment": "r1", "ref_start": ref_start, "cigar": cigar, "seq": seq, "norm": norm, "muts": muts,
